@@ -163,6 +163,12 @@ pub unsafe fn simd_prefix_search_avx2(
             break;
         }
 
+        // A corrupted cell_count can place the batch beyond the page; leave the
+        // range to the bounds-checked scalar search, as the scalar path does.
+        if LEAF_CONTENT_START + (batch_start + AVX2_BATCH_SIZE) * SLOT_SIZE > PAGE_SIZE {
+            break;
+        }
+
         let mut prefixes = [0i32; 8];
         for (i, prefix) in prefixes.iter_mut().enumerate() {
             let slot_offset = LEAF_CONTENT_START + (batch_start + i) * SLOT_SIZE;
@@ -239,6 +245,12 @@ pub unsafe fn simd_prefix_search_neon(
         let batch_start = batch_start.min(right.saturating_sub(NEON_BATCH_SIZE));
 
         if batch_start + NEON_BATCH_SIZE > cell_count {
+            break;
+        }
+
+        // A corrupted cell_count can place the batch beyond the page; leave the
+        // range to the bounds-checked scalar search, as the scalar path does.
+        if LEAF_CONTENT_START + (batch_start + NEON_BATCH_SIZE) * SLOT_SIZE > PAGE_SIZE {
             break;
         }
 
